@@ -116,6 +116,11 @@ type shParams struct {
 	Profile    string   `json:"shape_profile"`
 	BurstMax   int      `json:"burst_max"` // a client performs 1..burst_max operations per burst
 	Barrier    string   `json:"barrier"`   // park | spin (spin only takes effect under GOMAXPROCS ≤ 4)
+	// Twin != "": a second disk of that implementation (same package, size and hot addresses) is alive and
+	// used at the same time: clients with an even number work on disk 0, the others on disk 1. The child
+	// writes one record per disk; Disk says which one this is. Stamps carry the disk number in bits 56….
+	Twin string `json:"twin,omitempty"`
+	Disk int    `json:"disk"`
 }
 
 type shOp struct {
@@ -199,6 +204,9 @@ func shGen(seed int64, idx int) (shParams, []shRound) {
 	prof := shProfiles[rng.Intn(len(shProfiles))]
 	p.Profile = prof.name
 	p.BurstMax = []int{3, 3, 3, 6, 12}[rng.Intn(5)]
+	if p.Clients >= 4 && rng.Chance(30) {
+		p.Twin = []string{"mem", "file"}[rng.Intn(2)]
+	}
 	p.Barrier = "park"
 	if rng.Chance(12) {
 		p.Barrier = "spin"
@@ -395,12 +403,23 @@ func c10ShapeClient(args []string) int {
 		p, rounds := shGen(seed, idx)
 		fmt.Fprintf(os.Stderr, "shaped history %d impl=%s pkg=%s clients=%d\n", idx, p.Impl, p.Pkg, p.Clients)
 		path := filepath.Join(dir, fmt.Sprintf("s%d.img", idx))
-		d, err := openC10Disk(p.Pkg, p.Impl, path, p.Size)
+		d0, err := openC10Disk(p.Pkg, p.Impl, path, p.Size)
 		if err != nil {
 			fmt.Fprintln(os.Stderr, "harness: open disk:", err)
 			return 2
 		}
-		evs := make([][]shEvent, p.Clients+1)
+		disks := []disk.Disk{d0}
+		impls := []string{p.Impl}
+		if p.Twin != "" {
+			d1, err := openC10Disk(p.Pkg, p.Twin, path+".twin", p.Size)
+			if err != nil {
+				fmt.Fprintln(os.Stderr, "harness: open twin disk:", err)
+				return 2
+			}
+			disks, impls = append(disks, d1), append(impls, p.Twin)
+		}
+		nd := len(disks)
+		evs := make([][]shEvent, p.Clients+nd)
 		start := time.Now()
 		// spinning barriers release the clients more tightly but burn the processors the
 		// clients need when there are many of them: most histories park instead
@@ -408,7 +427,8 @@ func c10ShapeClient(args []string) int {
 		var wg sync.WaitGroup
 		// do performs one operation on behalf of a client and records it. base is the
 		// client's last observation per address (nil = zero block).
-		do := func(c, seq, rd, ph int, o shOp, base [][]byte, wbuf, rbuf []byte) shEvent {
+		do := func(di, c, seq, rd, ph int, o shOp, base [][]byte, wbuf, rbuf []byte) shEvent {
+			d := disks[di]
 			ev := shEvent{C: c, K: string(rune(o.K)), A: o.A, Rd: rd, Ph: ph}
 			func() {
 				defer func() {
@@ -426,7 +446,7 @@ func c10ShapeClient(args []string) int {
 					ev.Bh = fnv64(wbuf)
 					ev.Sh, ev.Rg = o.Shape, o.Rg
 					if o.Shape != shEqual {
-						ev.V = stampOf(o.A, c, seq)
+						ev.V = stampOf(o.A, c, seq) | uint64(di)<<56
 						for i := 0; i+1 < len(o.Rg); i += 2 {
 							for w := o.Rg[i]; w < o.Rg[i]+o.Rg[i+1]; w++ {
 								binary.LittleEndian.PutUint64(wbuf[w*8:], ev.V)
@@ -486,12 +506,12 @@ func c10ShapeClient(args []string) int {
 				for ri, rd := range rounds {
 					bar.wait() // everybody's burst of the previous round has returned
 					for _, o := range rd.Obs[c] {
-						my = append(my, do(c, seq, ri, 0, o, base, wbuf, rbuf))
+						my = append(my, do(c%nd, c, seq, ri, 0, o, base, wbuf, rbuf))
 						seq++
 					}
 					bar.wait() // nobody is reading any more
 					for _, o := range rd.Burst[c] {
-						my = append(my, do(c, seq, ri, 1, o, base, wbuf, rbuf))
+						my = append(my, do(c%nd, c, seq, ri, 1, o, base, wbuf, rbuf))
 						seq++
 						if p.GoschedPct > 0 && rng.Chance(p.GoschedPct) {
 							runtime.Gosched()
@@ -502,8 +522,8 @@ func c10ShapeClient(args []string) int {
 			}(c)
 		}
 		wg.Wait()
-		// quiescent point: every client has joined; read every block of the disk
-		{
+		// quiescent point: every client has joined; read every block of every disk
+		for di := range disks {
 			base := make([][]byte, p.Size)
 			wbuf, rbuf := make([]byte, bs), make([]byte, bs)
 			for a := uint64(0); a < p.Size; a++ {
@@ -511,24 +531,34 @@ func c10ShapeClient(args []string) int {
 				if a%2 == 1 {
 					k = 't'
 				}
-				evs[p.Clients] = append(evs[p.Clients], do(p.Clients, int(a), p.Rounds, 2, shOp{K: k, A: a}, base, wbuf, rbuf))
+				evs[p.Clients+di] = append(evs[p.Clients+di], do(di, p.Clients, int(a), p.Rounds, 2, shOp{K: k, A: a}, base, wbuf, rbuf))
 			}
-			evs[p.Clients] = append(evs[p.Clients], do(p.Clients, int(p.Size), p.Rounds, 2, shOp{K: 's'}, base, wbuf, rbuf))
+			evs[p.Clients+di] = append(evs[p.Clients+di], do(di, p.Clients, int(p.Size), p.Rounds, 2, shOp{K: 's'}, base, wbuf, rbuf))
 		}
-		func() {
-			defer func() { recover() }()
-			d.Close()
-		}()
-		if p.Impl == "file" {
-			os.Remove(path)
+		for di, d := range disks {
+			func() {
+				defer func() { recover() }()
+				d.Close()
+			}()
+			if impls[di] == "file" {
+				os.Remove([]string{path, path + ".twin"}[di])
+			}
 		}
-		rec := shRecord{shParams: p, GoMaxProcs: runtime.GOMAXPROCS(0)}
-		for _, e := range evs {
-			rec.Events = append(rec.Events, e...)
+		for di := range disks {
+			rec := shRecord{shParams: p, GoMaxProcs: runtime.GOMAXPROCS(0)}
+			rec.Disk = di
+			if di == 1 {
+				rec.Impl, rec.Twin = p.Twin, p.Impl
+			}
+			for c, e := range evs {
+				if (c < p.Clients && c%nd == di) || c == p.Clients+di {
+					rec.Events = append(rec.Events, e...)
+				}
+			}
+			b, _ := json.Marshal(rec)
+			wr.Write(b)
+			wr.WriteByte('\n')
 		}
-		b, _ := json.Marshal(rec)
-		wr.Write(b)
-		wr.WriteByte('\n')
 		wr.Flush()
 	}
 	return 0
@@ -638,6 +668,7 @@ func (ck *c10checker) shDetail(rec *shRecord, addr uint64, evs []*shEvent, upto 
 	}
 	d := map[string]interface{}{
 		"seed": ck.r.Seed, "shaped_history_index": rec.Hist, "impl": rec.Impl, "package": rec.Pkg, "clients": rec.Clients, "disk_size": rec.Size,
+		"disk_number": rec.Disk, "other_disk_alive_at_the_same_time": rec.Twin,
 		"hot_addresses": rec.Hot, "rounds": rec.Rounds, "shape_profile": rec.Profile, "gomaxprocs": rec.GoMaxProcs, "address": addr,
 		"last_events_on_address_by_call_time": describeShPartition(shown, 60),
 		"replay":                              fmt.Sprintf("vcheck child c10-shape %d %d 1 1 <dir> <out>  (operation lists, shapes and stamped regions are a function of seed and history index; payloads also depend on what each writer last observed, and the schedule is not reproducible)", ck.r.Seed, rec.Hist),
@@ -653,6 +684,9 @@ func (ck *c10checker) checkShaped(rec *shRecord) {
 	impl := rec.Impl
 	pfx := map[string]string{"mem": "memdisk", "file": "filedisk"}[impl]
 	r.Count("shaped_histories_"+impl+"_"+rec.Pkg, 1)
+	if rec.Twin != "" {
+		r.Count("shaped_histories_with_a_second_disk_in_use_"+impl+"_beside_"+rec.Twin, 1)
+	}
 	r.Count(fmt.Sprintf("shaped_histories_gomaxprocs_%d", rec.GoMaxProcs), 1)
 	r.Eval(len(rec.Events))
 	r.Count("shaped_ops_"+impl, int64(len(rec.Events)))
@@ -708,12 +742,16 @@ func (ck *c10checker) checkShapedAddr(rec *shRecord, a uint64, evs []*shEvent) {
 	}
 	// overlapping write pairs and how their payloads were shaped
 	var wp, wpDiff, wpSameBase int64
+	sampleRound := -1 // a round with overlapping, differently shaped writes, for the written-out samples
 	for i := range writes {
 		for j := i + 1; j < len(writes) && writes[j].T0 <= writes[i].T1; j++ {
 			wi, wj := writes[i], writes[j]
 			wp++
 			if wi.Sh != wj.Sh {
 				wpDiff++
+				if sampleRound < 0 && wi.Rd == wj.Rd {
+					sampleRound = wi.Rd
+				}
 			}
 			if wi.Sh != shEqual && wj.Sh != shEqual && wi.Bh == wj.Bh && regionsDisjoint(wi.Rg, wj.Rg) {
 				wpSameBase++
@@ -771,10 +809,12 @@ func (ck *c10checker) checkShapedAddr(rec *shRecord, a uint64, evs []*shEvent) {
 			if wd == 0 {
 				continue
 			}
-			if sa, ok := stampAddr(wd); !ok || sa != a || wd>>56 != 0 {
+			if sa, ok := stampAddr(wd &^ (3 << 56)); !ok || sa != a || wd>>56 != uint64(rec.Disk) {
 				what := fmt.Sprintf("%s: %s contains %s, which was never written to address %d", impl, describeShEvent(e), describeStamp(wd), a)
-				if ok && wd>>56 == 0 {
+				if ok && wd>>56 == uint64(rec.Disk) {
 					what = fmt.Sprintf("%s: %s contains a value written to address %d", impl, describeShEvent(e), sa)
+				} else if ok && wd>>56 < 2 && rec.Twin != "" {
+					what = fmt.Sprintf("%s: %s contains a value written to the OTHER disk alive at the same time (disk %d, %s)", impl, describeShEvent(e), wd>>56, rec.Twin)
 				}
 				violate(pfx+"-interference", what, e, nil)
 				break
@@ -874,10 +914,19 @@ func (ck *c10checker) checkShapedAddr(rec *shRecord, a uint64, evs []*shEvent) {
 	if wp > 0 {
 		r.Distinct("shaped/" + shPartitionKey(impl, evs, keys))
 	}
+	// sample: the burst of one round with overlapping differently shaped writes and the reads that follow it
+	var window []*shEvent
+	if sampleRound >= 0 && len(reported) == 0 {
+		for _, e := range evs {
+			if (e.Rd == sampleRound && e.Ph == 1) || (e.Rd == sampleRound+1 && e.Ph != 1) {
+				window = append(window, e)
+			}
+		}
+	}
 	if impl != "mem" {
-		if wpDiff >= 2 && len(evs) <= 40 {
-			ck.sample("file-shaped", rec.Hist, map[string]interface{}{"impl": "file", "package": rec.Pkg, "shaped_history_index": rec.Hist, "address": a, "gomaxprocs": rec.GoMaxProcs,
-				"overlapping_differently_shaped_write_pairs": wpDiff, "verdict": "every settled read returned the payload of a real-time-maximal write", "events_ns": describeShPartition(evs, 40)})
+		if len(window) > 0 && len(window) <= 30 {
+			ck.sample("file-shaped", rec.Hist, map[string]interface{}{"impl": "file", "package": rec.Pkg, "shaped_history_index": rec.Hist, "address": a, "gomaxprocs": rec.GoMaxProcs, "round": sampleRound,
+				"verdict": "every read overlapping no write returned the payload of a real-time-maximal write", "burst_of_the_round_and_the_reads_after_it_ns": describeShPartition(window, 30)})
 		}
 		return
 	}
@@ -898,9 +947,9 @@ func (ck *c10checker) checkShapedAddr(rec *shRecord, a uint64, evs []*shEvent) {
 	case porcupine.Ok:
 		r.Count("porcupine_ok", 1)
 		r.Count("shaped_porcupine_ok", 1)
-		if wpDiff >= 2 && len(evs) <= 40 {
-			ck.sample("mem-shaped", rec.Hist, map[string]interface{}{"impl": "mem", "package": rec.Pkg, "shaped_history_index": rec.Hist, "address": a, "gomaxprocs": rec.GoMaxProcs,
-				"overlapping_differently_shaped_write_pairs": wpDiff, "porcupine": "ok", "events_ns": describeShPartition(evs, 40)})
+		if len(window) > 0 && len(window) <= 30 {
+			ck.sample("mem-shaped", rec.Hist, map[string]interface{}{"impl": "mem", "package": rec.Pkg, "shaped_history_index": rec.Hist, "address": a, "gomaxprocs": rec.GoMaxProcs, "round": sampleRound,
+				"porcupine": "ok (whole per-address history)", "burst_of_the_round_and_the_reads_after_it_ns": describeShPartition(window, 30)})
 		}
 	case porcupine.Illegal:
 		r.Count("porcupine_illegal", 1)
